@@ -127,6 +127,22 @@ func contentAccesses(v ssa.Value, f func(in ssa.Instruction, mode, what string))
 				f(x, "R", "append")
 			case "close":
 				f(x, "W", "close")
+			default:
+				if isMap && c.Builtin == "" {
+					f(x, "X", "map handed to "+c.Name())
+				}
+			}
+		case *ssa.Return:
+			if isMap {
+				f(x, "X", "map returned to the caller")
+			}
+		case *ssa.Store:
+			if isMap && x.Val == v {
+				f(x, "X", "map stored elsewhere")
+			}
+		case *ssa.Phi, *ssa.MakeInterface, *ssa.MakeClosure, *ssa.Send, *ssa.Go, *ssa.Defer:
+			if isMap {
+				f(x, "X", "map value flows on ("+r.String()+")")
 			}
 		}
 	}
